@@ -1,0 +1,175 @@
+//go:build verif
+
+package pogreb
+
+// Verification-only exports. Compiled only with the "verif" build tag.
+
+// VerifSlot is an exported copy of an index slot.
+type VerifSlot struct {
+	Hash      uint32
+	SegmentID uint16
+	KeySize   uint16
+	ValueSize uint32
+	Offset    uint32
+}
+
+// VerifBucket is an exported copy of a bucket (all 31 slots, including empty ones).
+type VerifBucket struct {
+	Overflow bool  // Stored in the overflow index file.
+	Offset   int64 // Offset of the bucket in its file.
+	Slots    [slotsPerBucket]VerifSlot
+	Next     int64
+}
+
+// VerifIndex is a structural dump of the index.
+type VerifIndex struct {
+	Level          uint8
+	NumKeys        uint32
+	NumBuckets     uint32
+	SplitBucketIdx uint32
+	FreeList       []int64
+	MainSize       int64
+	OverflowSize   int64
+	Chains         [][]VerifBucket // One chain per main bucket.
+}
+
+// VerifSegment describes a datalog segment.
+type VerifSegment struct {
+	ID            uint16
+	SequenceID    uint64
+	Name          string
+	Size          int64
+	Current       bool
+	Full          bool
+	PutRecords    uint32
+	DeleteRecords uint32
+	DeletedKeys   uint32
+	DeletedBytes  uint32
+}
+
+// VerifConsts holds the package-level format constants.
+type VerifConsts struct {
+	HeaderSize     int
+	BucketSize     int
+	SlotsPerBucket int
+	FormatVersion  int
+	Signature      []byte
+	SegmentExt     string
+	MetaExt        string
+	LockName       string
+	LoadFactor     float64
+}
+
+// VerifConstants returns the format constants.
+func VerifConstants() VerifConsts {
+	return VerifConsts{
+		HeaderSize:     headerSize,
+		BucketSize:     bucketSize,
+		SlotsPerBucket: slotsPerBucket,
+		FormatVersion:  formatVersion,
+		Signature:      append([]byte(nil), signature[:]...),
+		SegmentExt:     segmentExt,
+		MetaExt:        metaExt,
+		LockName:       lockName,
+		LoadFactor:     loadFactor,
+	}
+}
+
+// VerifSetThresholds sets the unexported segment size and compaction thresholds.
+func VerifSetThresholds(o *Options, maxSegmentSize uint32, compactionMinSegmentSize uint32, compactionMinFragmentation float32) {
+	o.maxSegmentSize = maxSegmentSize
+	o.compactionMinSegmentSize = compactionMinSegmentSize
+	o.compactionMinFragmentation = compactionMinFragmentation
+}
+
+// VerifHashSeed returns the hash seed.
+func (db *DB) VerifHashSeed() uint32 {
+	db.mu.RLock()
+	defer db.mu.RUnlock()
+	return db.hashSeed
+}
+
+// VerifHash returns the hash of the key.
+func (db *DB) VerifHash(key []byte) uint32 {
+	return db.hash(key)
+}
+
+// VerifBucketIndex returns the index of the bucket the hash maps to.
+func (db *DB) VerifBucketIndex(hash uint32) uint32 {
+	db.mu.RLock()
+	defer db.mu.RUnlock()
+	return db.index.bucketIndex(hash)
+}
+
+// VerifIndex returns a structural dump of the index.
+func (db *DB) VerifIndex() (VerifIndex, error) {
+	db.mu.RLock()
+	defer db.mu.RUnlock()
+	idx := db.index
+	vi := VerifIndex{
+		Level:          idx.level,
+		NumKeys:        idx.numKeys,
+		NumBuckets:     idx.numBuckets,
+		SplitBucketIdx: idx.splitBucketIdx,
+		FreeList:       append([]int64(nil), idx.freeBucketOffs...),
+		MainSize:       idx.main.size,
+		OverflowSize:   idx.overflow.size,
+	}
+	for i := uint32(0); i < idx.numBuckets; i++ {
+		var chain []VerifBucket
+		it := idx.newBucketIterator(i)
+		for {
+			b, err := it.next()
+			if err == ErrIterationDone {
+				break
+			}
+			if err != nil {
+				return vi, err
+			}
+			vb := VerifBucket{Overflow: len(chain) > 0, Offset: b.offset, Next: b.next}
+			for j := 0; j < slotsPerBucket; j++ {
+				sl := b.slots[j]
+				vb.Slots[j] = VerifSlot{Hash: sl.hash, SegmentID: sl.segmentID, KeySize: sl.keySize, ValueSize: sl.valueSize, Offset: sl.offset}
+			}
+			chain = append(chain, vb)
+			if len(chain) > 1<<16 {
+				break // Cycle guard.
+			}
+		}
+		vi.Chains = append(vi.Chains, chain)
+	}
+	return vi, nil
+}
+
+// VerifSegments lists the datalog segments ordered by sequence ID.
+func (db *DB) VerifSegments() []VerifSegment {
+	db.mu.RLock()
+	defer db.mu.RUnlock()
+	var res []VerifSegment
+	for _, seg := range db.datalog.segmentsBySequenceID() {
+		res = append(res, VerifSegment{
+			ID:            seg.id,
+			SequenceID:    seg.sequenceID,
+			Name:          seg.name,
+			Size:          seg.size,
+			Current:       seg == db.datalog.curSeg,
+			Full:          seg.meta.Full,
+			PutRecords:    seg.meta.PutRecords,
+			DeleteRecords: seg.meta.DeleteRecords,
+			DeletedKeys:   seg.meta.DeletedKeys,
+			DeletedBytes:  seg.meta.DeletedBytes,
+		})
+	}
+	return res
+}
+
+// VerifCurrentSegment returns the name of the current segment and whether it's still registered in the datalog.
+func (db *DB) VerifCurrentSegment() (string, bool) {
+	db.mu.RLock()
+	defer db.mu.RUnlock()
+	cur := db.datalog.curSeg
+	if cur == nil {
+		return "", false
+	}
+	return cur.name, db.datalog.segments[cur.id] == cur
+}
